@@ -9,6 +9,7 @@
 package main
 
 import (
+	"fmt"
 	"strings"
 
 	"verif/harness/cmd/c03/cpgen"
@@ -52,6 +53,21 @@ func shape(lg *cpgen.Log) {
 	}
 }
 
+// e2eCase: end-to-end scenario number i of a seed (replayable as the line "e2e <seed> <i>")
+func e2eCase(seed uint64, i int) {
+	r := hlib.NewRand(seed*1000003 + uint64(i) + 29)
+	lg := cpgen.GenLog(r, cpgen.LogOpts{Format: r.Pick(2, 2, 3), Txn: true, MaxUnits: r.Pick(5, 10, 20)})
+	shape(lg)
+	so := lg.StartOffsets()
+	o := cpgen.E2EOpts{Rc: !r.Chance(1, 4), Kv: cpgen.PickVersion(r, 2), Start: so[r.Intn(len(so))],
+		FetchDef: int32(r.Pick(100, 256, 1024, 1<<20)), Faults: r.Bool(), Slow: r.Chance(1, 3), ChanBuf: r.Pick(0, 1, 4, 256),
+		MaxUnits: r.Pick(1, 2, 3, 8), Loose: r.Chance(1, 3)}
+	id := fmt.Sprintf("e2e %d %d", seed, i)
+	run.Case(id)
+	run.Count("e2e-scenario")
+	cpgen.RunE2E(run, id, seed*7919+uint64(i), lg, o)
+}
+
 func main() {
 	run = hlib.Start("C11")
 	rn = &cpgen.Runner{Run: run}
@@ -64,6 +80,9 @@ func main() {
 				}
 			case strings.HasPrefix(l, "resp "):
 				rn.ReplayStep(l)
+			case strings.HasPrefix(l, "e2e "):
+				t := strings.Fields(l)
+				e2eCase(uint64(hlib.Atoi(t[1])), hlib.Atoi(t[2]))
 			default:
 				run.Emit(l, "bad-op")
 			}
@@ -98,6 +117,13 @@ func main() {
 		for k := 0; k < 3; k++ {
 			history(r, lg, !r.Chance(1, 4), so[r.Intn(len(so))], r.Pick(1, 2, 3, 5, 100), false)
 		}
+	}
+	ne := 30
+	if run.Tier == "thorough" {
+		ne = 400
+	}
+	for i := 0; i < ne; i++ {
+		e2eCase(run.Seed, i)
 	}
 	run.Finish("case = one fetch history (reset + responses) over a generated transactional log; non-trivial = distinct history that delivered at least one message")
 }
